@@ -35,6 +35,10 @@ func init() {
 		"(*sync.RWMutex).RLock":   func(fr *frame, a []value) value { return fr.p.lock(fr, a[0], false) },
 		"(*sync.RWMutex).RUnlock": func(fr *frame, a []value) value { return fr.p.unlock(fr, a[0], false) },
 		"(*sync.Once).Do":         intrOnceDo,
+		// WaitGroups are inert (single-threaded engine; nothing is ever outstanding)
+		"(*sync.WaitGroup).Wait": func(fr *frame, a []value) value { return nil },
+		"(*sync.WaitGroup).Add":  func(fr *frame, a []value) value { return nil },
+		"(*sync.WaitGroup).Done": func(fr *frame, a []value) value { return nil },
 
 		// time
 		"time.Now":                     intrTimeNow,
@@ -118,6 +122,39 @@ func init() {
 		"(net/http.Header).Add":    intrHeaderAdd,
 		"(net/http.Header).Del":    intrHeaderDel,
 		"(net/http.Header).Values": intrHeaderValues,
+
+		// strings.Builder (uses unsafe in its real body): buf is field 1
+		"(*strings.Builder).WriteString": func(fr *frame, a []value) value {
+			s := needStr(fr, a[1])
+			sbAppend(a[0], []byte(s))
+			return tuple{len(s), iface{}}
+		},
+		"(*strings.Builder).WriteByte": func(fr *frame, a []value) value { sbAppend(a[0], []byte{a[1].(byte)}); return iface{} },
+		"(*strings.Builder).WriteRune": func(fr *frame, a []value) value {
+			s := string(a[1].(rune))
+			sbAppend(a[0], []byte(s))
+			return tuple{len(s), iface{}}
+		},
+		"(*strings.Builder).Write": func(fr *frame, a []value) value {
+			bs := a[1].([]value)
+			b := make([]byte, len(bs))
+			for i := range bs {
+				b[i] = bs[i].(byte)
+			}
+			sbAppend(a[0], b)
+			return tuple{len(b), iface{}}
+		},
+		"(*strings.Builder).String": func(fr *frame, a []value) value {
+			buf, _ := (*a[0].(*value)).(structure)[1].([]value)
+			b := make([]byte, len(buf))
+			for i := range buf {
+				b[i] = buf[i].(byte)
+			}
+			return string(b)
+		},
+		"(*strings.Builder).Len":   func(fr *frame, a []value) value { buf, _ := (*a[0].(*value)).(structure)[1].([]value); return len(buf) },
+		"(*strings.Builder).Grow":  func(fr *frame, a []value) value { return nil },
+		"(*strings.Builder).Reset": func(fr *frame, a []value) value { (*a[0].(*value)).(structure)[1] = []value(nil); return nil },
 
 		// net: pure parsers, executed natively on concrete arguments
 		"net.SplitHostPort": func(fr *frame, a []value) value {
